@@ -26,9 +26,9 @@ func acceptedVariants(g *Gen, enc []byte) [][]byte {
 // ---- C08: decode then encode reproduces the accepted bytes ----
 func init() {
 	suites["C08"] = func(o *Out, g *Gen, thorough bool) map[string]any {
-		per := 5
+		per := 12
 		if thorough {
-			per = 80
+			per = 200
 		}
 		accepted := 0
 		for _, v := range canonValues(g, per) {
@@ -113,9 +113,9 @@ func hostile(g *Gen, v *Val, enc []byte) [][]byte {
 // ---- C09: decoding arbitrary bytes never panics or hangs ----
 func init() {
 	suites["C09"] = func(o *Out, g *Gen, thorough bool) map[string]any {
-		per, nm := 3, 10
+		per, nm := 6, 14
 		if thorough {
-			per, nm = 30, 40
+			per, nm = 60, 40
 		}
 		for _, t := range schema.Types {
 			for i := 0; i < per; i++ {
@@ -210,9 +210,9 @@ func init() {
 // ---- C11: every strict prefix of a valid encoding is rejected ----
 func init() {
 	suites["C11"] = func(o *Out, g *Gen, thorough bool) map[string]any {
-		per := 2
+		per := 3
 		if thorough {
-			per = 12
+			per = 30
 		}
 		cuts := 0
 		g.maxList = 3
